@@ -36,7 +36,7 @@ COMPONENTS = {
     "stub": ["CAN backend (SimBus)", "can.Notifier", "time inside canopen.profiles.p402 / queue+time in sdo.client / threading.Condition in pdo.base (virtual clock)",
              "drive (RefDrive402 reference model incl. its SDO server)"],
 }
-PROBES = ["set-up-again-on-the-same-node-object", "transport-sdo", "transport-pdo-event", "transport-pdo-periodic", "auto-transition-during-assignment", "fault-reset", "fault-reset-without-edge",
+PROBES = ["set-up-again-on-the-same-node-object", "pdos-present-but-switched-off", "transport-sdo", "transport-pdo-event", "transport-pdo-periodic", "auto-transition-during-assignment", "fault-reset", "fault-reset-without-edge",
           "refused-target", "detour", "mode-supported", "mode-unsupported", "decode-unknown"]
 # probes that mark an injected disturbance; the runner also counts them as fired faults in the evidence
 FAULT_PROBES = {'auto-transition-during-assignment': 'drive-changes-state-on-its-own',
@@ -90,7 +90,12 @@ class W:
         self.ch = world.make_channel(ctx, swarm=False)
         self.net, self.bus = world.make_network(ctx, self.ch, "master")
         self.nid = 1 + ctx.choice(127, "node")
-        with_pdo = transport != "sdo"
+        # SDO transport comes in two set-ups: the device has no PDOs at all, or it has the usual RPDO1/TPDO1 with controlword and
+        # statusword mapped but SWITCHED OFF (COB-ID bit 31 set) - nothing travels by PDO then either
+        pdo_off = transport == "sdo" and ctx.choice(3, "pdo-present-but-off") == 1
+        if pdo_off:
+            ctx.probe("pdos-present-but-switched-off")
+        with_pdo = transport != "sdo" or pdo_off
         self.node = BaseNode402(self.nid, build_od(with_pdo, map_mode))
         self.net.add_node(self.node)
         ep = PeerEndpoint(self.ch, "drive")
@@ -102,22 +107,22 @@ class W:
         s = d.srv.store
         if with_pdo:
             s[(0x1400, 0)] = b"\x02"
-            s[(0x1400, 1)] = d.rpdo_cob.to_bytes(4, "little")
+            s[(0x1400, 1)] = (d.rpdo_cob | (0x80000000 if pdo_off else 0)).to_bytes(4, "little")
             # event-driven RPDO: 255 (profile specific) or 254 (manufacturer specific) - both are sent on change, not on SYNC
             rtype = b"\xff" if (self.nid + map_mode) % 2 else b"\xfe"
             s[(0x1400, 2)] = rtype
             s[(0x1800, 0)] = b"\x02"
-            s[(0x1800, 1)] = d.tpdo_cob.to_bytes(4, "little")
+            s[(0x1800, 1)] = (d.tpdo_cob | (0x80000000 if pdo_off else 0)).to_bytes(4, "little")
             s[(0x1800, 2)] = b"\xff" if transport == "pdo-event" else b"\x01"
             rmap = [0x60400010] + ([0x60600008] if map_mode == 1 else [])
             tmap = [0x60410010] + ([0x60610008] if map_mode == 1 else [])
             maps = [(0x1600, rmap), (0x1A00, tmap)]
             if map_mode == 2:
                 s[(0x1401, 0)] = b"\x02"
-                s[(0x1401, 1)] = d.rpdo2_cob.to_bytes(4, "little")
+                s[(0x1401, 1)] = (d.rpdo2_cob | (0x80000000 if pdo_off else 0)).to_bytes(4, "little")
                 s[(0x1401, 2)] = rtype
                 s[(0x1801, 0)] = b"\x02"
-                s[(0x1801, 1)] = d.tpdo2_cob.to_bytes(4, "little")
+                s[(0x1801, 1)] = (d.tpdo2_cob | (0x80000000 if pdo_off else 0)).to_bytes(4, "little")
                 s[(0x1801, 2)] = s[(0x1800, 2)]
                 maps += [(0x1601, [0x60600008]), (0x1A01, [0x60610008])]
             for base, mp in maps:
